@@ -418,7 +418,9 @@ impl Check {
         let wall = self.start.elapsed().as_secs_f64();
         let prop = self.property;
         let mut replay_paths = Vec::new();
-        let dir = Path::new(VERIF_ROOT).join("replays").join(prop);
+        // VERIF_OUT_DIR: development only (mutant trials must not overwrite the committed evidence)
+        let out_root = std::env::var("VERIF_OUT_DIR").map(PathBuf::from).unwrap_or_else(|_| PathBuf::from(VERIF_ROOT));
+        let dir = out_root.join("replays").join(prop);
         if !self.stats.failures.is_empty() {
             let _ = std::fs::create_dir_all(&dir);
         }
@@ -484,7 +486,7 @@ impl Check {
             "wall_s": (wall * 1000.0).round() / 1000.0,
             "violations": replay_paths.len(),
         });
-        let evdir = Path::new(VERIF_ROOT).join("evidence");
+        let evdir = out_root.join("evidence");
         let _ = std::fs::create_dir_all(&evdir);
         let evpath = evdir.join(format!("{prop}.json"));
         std::fs::write(&evpath, serde_json::to_string_pretty(&evidence).unwrap() + "\n")
